@@ -4,6 +4,7 @@ import (
 	"fmt"
 	"math"
 	"reflect"
+	"sort"
 	"strings"
 	"unsafe"
 
@@ -167,9 +168,11 @@ func (d *Denoter) val(v reflect.Value) *rh.Value {
 			m.Typed, m.Type = true, n
 		}
 		d.memo[k] = m
-		it := v.MapRange()
-		for it.Next() {
-			m.Elems = append(m.Elems, d.val(it.Key()), d.val(it.Value()))
+		// deterministic entry order (Go's map iteration order is random)
+		keys := v.MapKeys()
+		sort.Slice(keys, func(i, j int) bool { return fmt.Sprint(keys[i].Interface()) < fmt.Sprint(keys[j].Interface()) })
+		for _, k := range keys {
+			m.Elems = append(m.Elems, d.val(k), d.val(v.MapIndex(k)))
 		}
 		return m
 	}
